@@ -242,28 +242,47 @@ def run(ctx):
     pw = f.hir_fn("post_process_whitespace", module="typst_formatter::definition")
     ctx.fn(pw)
     trims = hir.find_calls(pw["body"], "trim")
+    lets_pw = hir.let_env(pw["body"])
+
+    def idx_of(e):
+        e = strip(hir.through_lets(e, lets_pw))
+        if e["k"] == "MethodCall" and e["method"] == "is_whitespace":
+            r = strip(e["recv"])
+            if r["k"] == "Index":
+                return r["idx"]
+        return None
+
+    def prev_and_cur(x, y):
+        """x tests chars[i - 1], y tests chars[i] (same i)"""
+        i0, i1 = idx_of(x), idx_of(y)
+        if i0 is None or i1 is None:
+            return False
+        a, b_ = strip(i0), strip(i1)
+        return a["k"] == "Binary" and a["op"] in ("-", "Sub") and field_path(a["l"]) == field_path(b_) and field_path(b_) is not None \
+            and strip(a["r"])["k"] == "Lit" and strip(a["r"])["lit"]["v"] == 1
+    # the skip decision, spelled as `match (prev_ws, cur_ws) { (true, true) => {}, _ => push }` or as `if !(prev_ws && cur_ws) { push }`
     mm = [n for n in hir.walk(pw["body"]) if n.get("k") == "Match" and strip(n["scrut"])["k"] == "Tup"]
-    ok = len(trims) == 1 and len(mm) == 1
-    if ok:
+    ok = False
+    if len(trims) == 1 and len(mm) == 1:
         sc = strip(mm[0]["scrut"])["elems"]
-        def idx_of(e):
-            e = strip(e)
-            if e["k"] == "MethodCall" and e["method"] == "is_whitespace":
-                r = strip(e["recv"])
-                if r["k"] == "Index":
-                    return hir.__dict__["hirpp"].expr(r["idx"]) if False else r["idx"]
-            return None
-        i0, i1 = idx_of(sc[0]), idx_of(sc[1])
-        ok = i0 is not None and i1 is not None
-        if ok:
-            a, b_ = strip(i0), strip(i1)
-            ok = a["k"] == "Binary" and a["op"] == "-" and field_path(a["l"]) == field_path(b_) and strip(a["r"])["lit"]["v"] == 1
+        ok = len(sc) == 2 and prev_and_cur(sc[0], sc[1])
         arms_ = mm[0]["arms"]
         ok = ok and len(arms_) == 2
         if ok:
             p0 = arms_[0]["pat"]
             both = p0["k"] == "Tuple" and [hir.bool_pat(x) for x in p0["pats"]] == [True, True]
             ok = both and not hir.find_calls(arms_[0]["body"]) and arms_[1]["pat"]["k"] == "Wild" and len(hir.find_calls(arms_[1]["body"], "push")) == 1
+    elif len(trims) == 1 and not mm:
+        for n in hir.walk(pw["body"]):
+            br = hir.as_branch(n) if n.get("k") == "If" else None
+            if not br:
+                continue
+            c = strip(hir.through_lets(br[0], lets_pw))
+            if c["k"] == "Binary" and c["op"] in ("&&", "And") and prev_and_cur(c["l"], c["r"]):
+                # both whitespace -> nothing is written; otherwise exactly one push
+                t_calls = hir.find_calls(br[1]) if br[1] is not None else []
+                e_push = hir.find_calls(br[2], "push") if br[2] is not None else []
+                ok = not t_calls and len(e_push) == 1
     ctx.ob("F-POST", "post_process_whitespace: trims, then drops a char only when it and its predecessor are both whitespace", bool(ok), "")
     asg = [n for n in hir.walk(pw["body"]) if n.get("k") == "Assign"]
     # ... into the parameter, from the local the kept characters were pushed to (binders by identity, not by name)
